@@ -376,6 +376,11 @@ def run_case(case):
         if kind == "other_context":
             other = xo.ContextCpu()
             applied = True
+            if mu["variant"] % 2:
+                # the same contradiction together with an explicit integer offset (a region reserved for the purpose)
+                hole = int(buf.allocate(end - int(obj._offset)))
+                labels.add("other_context_with_explicit_offset")
+                return lambda: mat.construct(node, value, mat.Forms(case["forms"]), mat.Env(buf, buf.context), _buffer=buf, _context=other, _offset=hole)
             return lambda: mat.construct(node, value, mat.Forms(case["forms"]), mat.Env(buf, buf.context), _buffer=buf, _context=other)
         if kind == "offset_without_buffer":
             applied = True
